@@ -23,10 +23,34 @@ def suite(name, quick, thorough):
 TECH = "Lean 4 proof over a hand-written model + differential correspondence check"
 
 PROPS = {
+    "C14": {
+        "modules": ["Qvnt.Props.C14"],
+        "suites": [suite("reg", dict(count=500, max_n=6), dict(count=10000, max_n=9))],
+        "mismatch_tags": None,
+        "spec_tags": [r"c14\..*"],
+        "trusted_base": TB_COMMON,
+        "assumptions": ASSUME_COMMON + ["get_polar (to_polar: hypot/atan2 from libm) is checked by the correspondence only: the polar pairs must reconstruct the model's amplitudes and there must be 2^n of them"],
+        "level_text": "Lean theorems (Props/C14.lean) over the register model: with_state(n, s) is the basis state s mod 2^n in a buffer of max(2^n, 8) entries; the tensor product has amplitude a[i mod 2^na] * b[i div 2^na] below 2^(na+nb) and zero padding, sizes add, the empty register is neutral on both sides (quantum and classical); probabilities have 2^n entries and the vreg n entries for every n; growing keeps the amplitudes and adds |0> qubits, shrinking yields exactly QReg::new(n). All for every n, every state. Tied to the code by the reg suite (construction with indices >= 2^n, chains of products of 0..3-qubit registers in random states and threading models, grow/shrink sequences, observable sizes) executed on the real crate and the model, with the same statements as oracles on the implementation's outputs.",
+        "level_note": "Trusted: Lean kernel + standard axioms; hand-written model of quant.rs/class.rs construction, tensor_prod and set_num (after the D3 repair), validated by the correspondence run.",
+        "technique": TECH,
+        "design_ref": "DESIGN.md section 5, C14",
+    },
+    "C16": {
+        "modules": ["Qvnt.Props.C16"],
+        "suites": [suite("sample", dict(count=600, max_n=6), dict(count=20000, max_n=10))],
+        "mismatch_tags": [r"sample", r"setpsi", r"apply", r"op"],
+        "spec_tags": [r"c16\..*"],
+        "trusted_base": TB_COMMON,
+        "assumptions": ASSUME_COMMON + ["the standard-normal draws are inputs of the model (for single-threaded registers the harness reproduces them from the seeded generator; with several threads the order of the draws is not reproducible and only the postconditions are checked)", "stage 1 (floating-point proposal) is modelled at Float; C16_zero assumes round(0) <= 0 and sqrt 0 * x = 0 as explicit hypotheses"],
+        "level_text": "Lean theorems (Props/C16.lean) about the integer correction pass of sample_all (after the D4/D5 repair), for EVERY proposal vector, every positivity pattern and every shot count: the pass never indexes out of bounds and its surplus walk terminates within the stated fuel, the result has 2^n cells, sums to exactly the requested count whenever some outcome is possible, and cells of zero probability keep zero shots; lifted to sample_all with the Gaussian draws as an input list. Tied to the code by the sample suite: sparse states on 0..6 qubits (0..10 thorough), counts 0/1/odd/large, both threading models; for single-threaded registers the model reproduces the exact histogram from the same draws; the three postconditions are checked on every implementation output.",
+        "level_note": "Trusted: Lean kernel + standard axioms; hand-written model of sample_all; rand_distr::StandardNormal and the seeded generator hook (cfg qvnt_verif) as the source of the draws.",
+        "technique": TECH,
+        "design_ref": "DESIGN.md section 5, C16",
+    },
     "C20": {
         "modules": ["Qvnt.Props.C20"],
         "suites": [
-            suite("bits", dict(count=500), dict(count=20000)),
+            suite("bits", dict(count=500, timeout=60), dict(count=20000, timeout=600)),
         ],
         "mismatch_tags": None,   # every command of the suite belongs to this property
         "spec_tags": [r"c20\..*", r"c14\.size\.vreg", r"op"],
